@@ -66,6 +66,48 @@ class FakeRedis:
                 n += 1
         return n
 
+    def hset(self, name, key=None, value=None, mapping=None):
+        self._maybe_fail('hset')
+        h = self._hash(name)
+        items = ([(key, value)] if key is not None else []) + list((mapping or {}).items())
+        n = 0
+        for k, v in items:
+            kb, vb = _b(k), _b(v)
+            if kb not in h:
+                n += 1
+            h[kb] = vb
+        return n
+
+    def hexists(self, name, key):
+        self._maybe_fail('hexists')
+        return _b(key) in self._hash(name)
+
+    def hkeys(self, name):
+        self._maybe_fail('hkeys')
+        return list(self._hash(name).keys())
+
+    def hvals(self, name):
+        self._maybe_fail('hvals')
+        return list(self._hash(name).values())
+
+    def hlen(self, name):
+        self._maybe_fail('hlen')
+        return len(self._hash(name))
+
+    def hmget(self, name, keys, *args):
+        self._maybe_fail('hmget')
+        ks = list(keys) if isinstance(keys, (list, tuple)) else [keys]
+        ks += list(args)
+        h = self._hash(name)
+        return [h.get(_b(k)) for k in ks]
+
+    def hscan_iter(self, name, match=None, count=None):
+        self._maybe_fail('hscan')
+        return iter(list(self._hash(name).items()))
+
+    def pipeline(self, transaction=True):
+        return _FakePipeline(self)
+
     def register_script(self, script):
         client = self
 
@@ -81,3 +123,28 @@ class FakeRedis:
 
     def flushdb(self):
         self.h = {}
+
+
+class _FakePipeline:
+    """commands are queued and run in order by execute(); the results come back as a list"""
+    def __init__(self, client):
+        self._client, self._queue = client, []
+
+    def __getattr__(self, name):
+        target = getattr(self._client, name)
+
+        def queue(*a, **kw):
+            self._queue.append((target, a, kw))
+            return self
+        return queue
+
+    def execute(self):
+        out = [f(*a, **kw) for f, a, kw in self._queue]
+        self._queue = []
+        return out
+
+    def __enter__(self):
+        return self
+
+    def __exit__(self, *a):
+        return False
